@@ -59,7 +59,7 @@ AttrOK(exp, obs) ==
 Clause(s, e) ==
   LET exp == Expected(s, e)  obs == e.obs  op == e.op  n == Len(s.frames) IN
   IF MustFail(s, e) THEN
-       (IF obs.err = "" THEN "C01:length-mismatch-stored-instead-of-rejected"
+       (IF obs.err = "" THEN (IF TwoD(e) THEN "C01:two-dimensional-value-stored-as-a-column" ELSE "C01:length-mismatch-stored-instead-of-rejected")
         ELSE IF \E h \in 1..n : ObsFrame(obs.frames[h]) # View(s, h) THEN "C01:rejected-assignment-still-changed-the-frame" ELSE "")
   ELSE IF obs.err # "" THEN "SM:raised:" \o op
   ELSE IF Len(obs.frames) # Len(exp.frames) THEN "SM:no-new-frame:" \o op
